@@ -203,7 +203,7 @@ Print Assumptions C17_maybefat_never_chosen.
 (* "the image is at least the requested size": the image file is grown, never shrunk and never rewritten (the block of
    prepare_image and config.size are pinned by facts regenerated from prep.py / config.py) *)
 Theorem C17_resize_source_facts :
-  resize_block_standard = true /\ size_parser_standard = true /\
+  prepare_order_standard = true /\ resize_block_standard = true /\ size_parser_standard = true /\
   Prep.Resize.size_of size_default_mantissa 0 Prep.Resize.SGB = 17179869184 /\ size_default_suffix = [71; 66].
 Proof. repeat split; reflexivity. Qed.
 Print Assumptions C17_resize_source_facts.
